@@ -1018,17 +1018,25 @@ class BuiltinsMixin:
     def m_text_lower(self, s):
         if isinstance(s, (str, bytes)):
             return s.lower()
-        f = z3.Function("str.lower", z3.StringSort(), z3.StringSort())
+        f = z3.Function("str.lower" if s.kind == "str" else "bytes.lower", z3.StringSort(), z3.StringSort())
         r = f(s.e)
-        self.run.assume(z3.And(z3.Length(r) == z3.Length(s.e), f(r) == r))
+        if s.kind == "bytes":
+            self.run.assume(z3.And(z3.Length(r) == z3.Length(s.e), f(r) == r))  # ASCII-only case mapping
+        else:
+            # Unicode special casing can lengthen the text (e.g. 'ß'.upper() == 'SS'): only bounds are known
+            self.run.assume(z3.And(z3.Length(r) >= z3.Length(s.e), z3.Length(r) <= 3 * z3.Length(s.e), f(r) == r))
         return SStr(r, s.kind)
 
     def m_text_upper(self, s):
         if isinstance(s, (str, bytes)):
             return s.upper()
-        f = z3.Function("str.upper", z3.StringSort(), z3.StringSort())
+        f = z3.Function("str.upper" if s.kind == "str" else "bytes.upper", z3.StringSort(), z3.StringSort())
         r = f(s.e)
-        self.run.assume(z3.And(z3.Length(r) == z3.Length(s.e), f(r) == r))
+        if s.kind == "bytes":
+            self.run.assume(z3.And(z3.Length(r) == z3.Length(s.e), f(r) == r))  # ASCII-only case mapping
+        else:
+            # Unicode special casing can lengthen the text (e.g. 'ß'.upper() == 'SS'): only bounds are known
+            self.run.assume(z3.And(z3.Length(r) >= z3.Length(s.e), z3.Length(r) <= 3 * z3.Length(s.e), f(r) == r))
         return SStr(r, s.kind)
 
     def m_text_isdigit(self, s):
